@@ -657,9 +657,10 @@ def c15_oblig(ctx):
             else:
                 # a panic call: which condition leads here?
                 falsified = [(pt, f) for pt, f in c['pc'] if pt[0] == 'bin']
-                if any(pt[0] == 'bin' and pt[1] == 'Gt' and pt[3] == ('const', 0) and lin.fact_truth(f) is False and B.lb1(pt[2], b, r, frozenset()) for pt, f in c['pc']):
+                zeros = [z for z in (forced_zero(pt, f) for pt, f in c['pc']) if z is not None]
+                if any(B.lb1(z, b, r, frozenset()) for z in zeros):
                     how, why = 'invariant', 'the asserted value is >= 1'
-                elif any(pt[0] == 'bin' and pt[1] == 'Gt' and lin.fact_truth(f) is False and pt[2][0] == 'call' and method_of(pt[2]) == 'inner' and self_validate_ok(ctx, b) for pt, f in c['pc']):
+                elif any(z[0] == 'call' and method_of(z) == 'inner' and self_validate_ok(ctx, b) for z in zeros):
                     how, why = 'invariant', 'validate() is only applied to resolved chunk sizes >= 1 (C15-CLAMP)'
                 elif any(pt[0] == 'discr' and 'available' in t_str(pt[1]) for pt, f in c['pc']):
                     how, why = 'assumption-A2', 'std::thread::available_parallelism() succeeds (environment, not configuration)'
@@ -681,6 +682,32 @@ def c15_oblig(ctx):
         out.floor('panic_sites', n, 4 if not ctx.fixture else 0)
     out.floor('slice_bodies', n_bodies, 25 if not ctx.fixture else 0)
     return out
+
+
+def forced_zero(pt, f):
+    """the (unsigned) term that the path fact (pt, f) forces to be 0, if any:  X > 0 false, X != 0 false, X == 0 true,
+    X >= 1 false, X < 1 true, 0 < X false, X itself switched on 0 ..."""
+    if f == ('eq', 0) and pt[0] not in ('bin', 'un', 'discr'):
+        return pt
+    tv = lin.fact_truth(f)
+    if tv is None or pt[0] != 'bin':
+        return None
+    op, a, c = pt[1], pt[2], pt[3]
+    if op in ('Eq', 'Ne'):
+        if (op == 'Eq') == tv:
+            if c == ('const', 0):
+                return a
+            if a == ('const', 0):
+                return c
+        return None
+    con = lin.constraint(pt, tv)
+    if con is None:
+        return None
+    co, k = con
+    # X + k <= 0 with k >= 0  => X <= 0 => X == 0 (unsigned)
+    if len(co) == 1 and list(co.values())[0] == 1 and k >= 0:
+        return list(co.keys())[0]
+    return None
 
 
 def self_validate_ok(ctx, b):
